@@ -494,3 +494,24 @@ package types
 //@   decreases[C09] size(self)
 //@ contract stringifyBranches
 //@   inline
+
+// the polarity of a type is read off its head constructor: a type name has to be unfolded first
+//@ contract interface SessionType.Polarity(self)
+//@   requires[C09] !is(self, LabelType)
+//@   pure
+//@ contract (*LabelType).Polarity
+//@   unreachable[C09]
+
+// ---- C09: copying a type (names of process providers get a private copy of the declared type)
+//@ contract interface Modality.Copy(self)
+//@   requires[C09] self != nil
+//@ contract CopyType
+//@   requires[C09] orig != nil ==> shapeOK(orig) && modesNN()
+//@   decreases[C09] ite(orig == nil, 0, size(orig))
+//@   loop 1 invariant 0 <= i && i <= len(p.Branches)
+//@   loop 1 decreases len(p.Branches) - i
+//@   loop 2 invariant 0 <= i && i <= len(p.Branches)
+//@   loop 2 decreases len(p.Branches) - i
+// a type name prints as itself (the contractivity check uses the printed form as its visited-set key)
+//@ contract (*LabelType).String
+//@   ensures C10.labelString: result == q.Label
